@@ -23,9 +23,11 @@ remove_row_groups(rgs)      rgs = duplicate-free list of K members of fmd.row_gr
 row_groups_map.*            per file f: len(result[f]) == number of members with FILE == f; keys == files of the members
                             (loop invariant counts_per_file; used as a cut at the two call sites of remove_row_groups)
 overwrite.*
-  overwrite.partition_text_key_order         the new data's partition text is data.loc[:, defined_partitions].astype(str).agg('/'.join, axis=1)
-                                             with the selector BEING the ordered list defined_partitions = list(pf.cats) (columns by
-                                             name in the dataset's partition order; not a mask, not the frame's own order), all rows
+  overwrite.partition_text_key_order         the new data's partition texts are the '/'-joined texts of ALL values of each row of
+                                             data.loc[:, defined_partitions], the selector BEING the ordered list defined_partitions =
+                                             list(pf.cats) (columns by name in the dataset's partition order; not a mask, not the frame's
+                                             own order), all rows ({'/'.join(path_string(v) for v in key) for key in ....itertuples(index=False)};
+                                             the pre-1c32364 form .astype(str).agg('/'.join, axis=1) has the same key order)
   overwrite.removes_exactly_matching_partitions   rg selected  <=>  partitions(rg, True) in {partition text of a new row}
   overwrite.selection_ranges_over_all_existing    the filter ranges over all row groups of the dataset as opened
   overwrite.write_before_remove / metadata_written_last / writes_the_new_data
@@ -36,8 +38,8 @@ overwrite.*
                                              partition_on_columns' group loop (groupby key -> path_string -> join_path) and the REAL filter
                                              predicate of overwrite (partitions(path, True) in <text of the new data>) are executed: the row
                                              group filed under <col>=<text of v> is selected exactly when the new data holds v.  Complete
-                                             for the type table, bounded in the value dimension.  REFUTED = known findings for Timestamp
-                                             keys (isoformat vs astype(str)) and float32 values with inexact decimals
+                                             for the type table, bounded in the value dimension.  all rows PROVED since fix 1c32364 (before it: Timestamp
+                                             keys - isoformat vs astype(str) - and float32 values with inexact decimals disagreed)
 partitions.*                None iff the path has no '/'; only_values=False: the directory of the path; True: '/'.join(re.split('/|=', p)[1::2])
 part_ids.*                  keys == part numbers of the referenced files; D[n] == (f, path_f), f the FIRST row group with number n
 rename.* (_sort_part_names) ghost directory map, see run_sort:
@@ -966,7 +968,52 @@ class SubFrame:
             ok = (args[0].h.s == "/" and args[0].h.name == "join" and isinstance(ax, PyI) and z3.is_int_value(z3.simplify(ax.z))
                   and z3.simplify(ax.z).as_long() == 1 and self.as_str)
             return [(p, Custom(RowTexts(self.kind if ok else self.kind + " / not astype(str).agg('/'.join, axis=1)")))]
+        if name == "drop_duplicates" and not args and not kw:
+            return [(p, Custom(SubFrame(self.kind, self.sel, self.as_str)))]          # the distinct rows, same columns in the same order
+        if name == "itertuples" and not args:
+            ix = kw.get("index")
+            ok = isinstance(ix, PyB) and z3.is_false(z3.simplify(ix.z)) and not self.as_str
+            return [(p, Custom(RowTuples(self.kind if ok else self.kind + " / itertuples that also yields the index")))]
         raise Unsupported("frame." + name)
+
+
+class RowTuples:
+    """frame.itertuples(index=False): one tuple per row, the values in the frame's column order"""
+    tracked = False
+
+    def __init__(self, kind):
+        self.kind = kind
+
+    def arbitrary(self, eng, p):
+        return Custom(RowKey(self.kind))
+
+
+class RowKey:
+    tracked = False
+
+    def __init__(self, kind):
+        self.kind = kind
+
+    def arbitrary(self, eng, p):
+        return Custom(CellV(self.kind))
+
+
+class CellV:
+    tracked = False
+
+    def __init__(self, kind):
+        self.kind = kind
+
+
+class CellText:
+    """text of one partition value; `how` names the function that rendered it"""
+    tracked = False
+
+    def __init__(self, kind, how):
+        self.kind, self.how = kind, how
+
+    def call_method(self, eng, p, name, args, kw, node):
+        return [(p, Custom(CellText(self.kind, self.how + "." + name)))]
 
 
 class RowTexts:
@@ -1076,12 +1123,50 @@ def run_overwrite(ctx, funcs, timeout):
             return [(p, Custom(FilterV(args[0].h, args[1])))]
         raise Unsupported("filter with a non-lambda")
 
+    def h_path_string(eng, p, args, kw, node):
+        v = args[0] if args else None
+        if isinstance(v, Custom) and isinstance(v.h, CellV):
+            return [(p, Custom(CellText(v.h.kind, "path_string")))]
+        return [(p, Opaque(("path_string", next(eng.counter))))]
+
+    def h_join(eng, p, args, kw, node):
+        sep, x = args[0], args[1] if len(args) > 1 else None
+        h = x.h if isinstance(x, Custom) else None
+        if isinstance(sep, Str) and isinstance(h, AbstractComp) and isinstance(h.coll, Custom) and isinstance(h.coll.h, RowKey):
+            kind = h.coll.h.kind
+            if not z3.is_true(z3.simplify(h.guard)):
+                kind += " / some values of the row skipped"
+            if sep.s != "/":
+                kind += " / joined by " + repr(sep.s)
+            if not (isinstance(h.elt, Custom) and isinstance(h.elt.h, CellText)):
+                kind += " / the joined items are not texts of the row's values (" + _describe(h.elt) + ")"
+            return [(p, Custom(RowTexts(kind)))]
+        raise Unsupported("str.join of " + _describe(x))
+
+    def h_comp(eng, p, e):
+        # {<text of the row> for key in <frame>.itertuples(index=False, ...)}: the set of the rows' texts
+        if not isinstance(e, (ast.SetComp, ast.ListComp)) or len(e.generators) != 1:
+            return None
+        g = e.generators[0]
+        r = eng.ev(g.iter, p)
+        if len(r) != 1 or not (isinstance(r[0][1], Custom) and isinstance(r[0][1].h, RowTuples)):
+            return None
+        q = r[0][0]
+        saved = dict(q.env)
+        for q2 in eng.assign(g.target, r[0][1].h.arbitrary(eng, q), q):
+            v = eng.ev1(e.elt, q2)
+        q.env = saved
+        kind = v.h.kind if isinstance(v, Custom) and isinstance(v.h, RowTexts) else "set of " + _describe(v)
+        if g.ifs:
+            kind += " / rows filtered"
+        return [(q, Custom(TextSet(kind)))]
+
     def h_reset(eng, p, args, kw, node):
         if isinstance(args[0], Custom) and isinstance(args[0].h, FrameV):
             return [(p, Custom(FrameV("reset_row_idx(data)")))]
         raise Unsupported("reset_row_idx")
     eng = Eng(funcs=funcs, handlers={"ParquetFile": h_pf, "partitions": h_partitions, "pd.unique": h_unique, "filter": h_filter,
-                                     "reset_row_idx": h_reset, "reversed": lambda e, p, a, k, n: [(p, Opaque(("reversed", next(e.counter))))]},
+                                     "reset_row_idx": h_reset, "path_string": h_path_string, ".join": h_join, "listcomp": h_comp, "reversed": lambda e, p, a, k, n: [(p, Opaque(("reversed", next(e.counter))))]},
               opaque_calls=True)
     p = Path()
     p.pc += [OW.N >= 0, OW.NPART >= 0, 0 <= OW.SCHEME, OW.SCHEME <= 5]
@@ -1138,8 +1223,9 @@ def run_overwrite(ctx, funcs, timeout):
         ts = [v for v in fv.lam.env.values() if isinstance(v, Custom) and isinstance(v.h, TextSet)]
         ko = bool(ts) and all(t.h.kind == "by_name_in_partition_order" for t in ts)
         res.add("overwrite.partition_text_key_order", PROVED if ko else REFUTED, None if ko else {"text_built_from": [t.h.kind for t in ts]}, 0.0, "trace",
-                "the new data's partition text is data.loc[:, defined_partitions].astype(str).agg('/'.join, axis=1) with the column selector "
-                "being the ordered list defined_partitions = list(pf.cats) (columns BY NAME in the dataset's partition order, all rows)")
+                "the new data's partition texts are built row by row from data.loc[:, defined_partitions] - the column selector BEING the ordered "
+                "list defined_partitions = list(pf.cats) (columns BY NAME in the dataset's partition order, all rows) - as the '/'-joined texts of "
+                "ALL the row's values in that order (which text a value gets is the subject of overwrite.partition_text_conventions_agree[...])")
         st, m, secs = solve(list(r.pc) + list(r.axioms) + [z3.Not(z == INNEW(TEXTV(OW.jA)))], timeout)
         res.add("overwrite.removes_exactly_matching_partitions", st,
                 {"row_group": mval(m, OW.jA), "selected": mval(m, z), "its_values_text_is_in_new_data": mval(m, INNEW(TEXTV(OW.jA)))} if m is not None else None,
@@ -1973,8 +2059,8 @@ def check_plan(ctx, eng, q, passes, res, timeout):
 # =================================================================================================================
 #  the two text conventions overwrite relies on:  directory text written  vs.  text compared by overwrite
 # =================================================================================================================
-FID_TS_TEXT = "C09-P-overwrite-timestamp-partition-text"
-FID_F32_TEXT = "C09-P-overwrite-float32-partition-text"
+# (Timestamp keys and float32 keys with inexact decimals disagreed until fix 1c32364: records fixed-C09-overwrite-timestamp-partition-text,
+#  fixed-C09-overwrite-float32-partition-text; every row of the table must be PROVED now)
 
 
 def _free_names(node, bound=()):
@@ -2220,9 +2306,10 @@ ASSUMED = [
     "overwrite: ParquetFile(dirpath).cats lists the partition columns in the dataset's partition order (= directory nesting order of the "
     "hive paths); pf.row_groups is the list bound when the dataset was opened and write_row_groups rebinds fmd.row_groups without "
     "mutating it (the lazy filter is consumed only inside remove_row_groups)",
-    "pandas: frame.loc[:, names] selects all rows and the columns BY NAME IN THE ORDER of `names`; .astype(str).agg('/'.join, axis=1) is, "
-    "per row, the '/'-joined str() of the values in column order; pd.unique keeps exactly the distinct texts; filter(f, xs) yields the "
-    "members of xs on which f is true",
+    "pandas: frame.loc[:, names] selects all rows and the columns BY NAME IN THE ORDER of `names`; .drop_duplicates() keeps the distinct rows; "
+    ".itertuples(index=False) yields per row the tuple of its values in column order; .astype(str).agg('/'.join, axis=1) is, per row, the "
+    "'/'-joined str() of the values in column order; pd.unique keeps exactly the distinct texts; filter(f, xs) yields the members of xs on "
+    "which f is true",
     "partitions(rg, True) of a hive path 'k1=v1/../kn=vn/file' (keys and values free of '/' and '=') is 'v1/../vn' "
     "(re.split('/|=', path)[1::2] are the values in nesting order); str.rsplit('/', 1)[0] of 'd/name' is d",
     "partition text conventions: partition values are free of '/' and '=' (a str value containing them, or a timedelta, makes the hive "
